@@ -55,3 +55,40 @@ harness! {
         cov!(s, !use_null, "C01.cover.nonnull");
     }
 }
+
+/// `string_to_char` ends in `from_u32_unchecked`: every char the string iterators hand out must be a Unicode scalar
+/// value (anything else is an invalid `char`, which is UB in safe code).
+fn is_scalar(c: char) -> bool {
+    let n = c as u32;
+    n < 0xD800 || (n >= 0xE000 && n <= 0x10FFFF)
+}
+
+harness! {
+    /// kind=bounded tier=quick bound="valid UTF-8 string<=5 bytes, every front/back history of 4 steps of Chars and CharIndices"
+    #[kani::unwind(8)]
+    fn c01_string_iterators_yield_valid_chars(s) {
+        let bs = BStr::<5>::any(s);
+        let h = bs.as_str();
+        let mut k = konst::string::chars(h);
+        let mut ki = konst::string::char_indices(h);
+        let mut yielded = 0usize;
+        let mut i = 0;
+        while i < 4 {
+            let front = s.bool();
+            let r = if front { k.copy().next() } else { k.copy().next_back() };
+            if let Some((c, n)) = r {
+                k = n;
+                chk!(s, is_scalar(c), "C01.string.chars.item_is_unicode_scalar_value");
+                yielded += 1;
+            }
+            let r = if front { ki.copy().next() } else { ki.copy().next_back() };
+            if let Some(((o, c), n)) = r {
+                ki = n;
+                chk!(s, is_scalar(c) && o < h.len(), "C01.string.char_indices.item_is_unicode_scalar_value_in_range");
+            }
+            i += 1;
+        }
+        cov!(s, yielded == 4, "C01.cover.chars_four_items");
+        cov!(s, yielded == 1 && h.len() == 4, "C01.cover.chars_one_four_byte_char");
+    }
+}
